@@ -828,6 +828,13 @@ func (ctx *context) Run() (res *Result) {
 		instr.fn(ctx)
 		ctx.addDebug(ctx.pfx + "----\n")
 		_ = x
+		if ctx.res.runErr != nil {
+			// An instruction reported a failure of the data tree.  Stop
+			// here: the remaining instructions would run on a stack that
+			// lacks the missing value and replace the reported error by
+			// an unrelated one (e.g. "Stack underflow").
+			break
+		}
 	}
 
 	return ctx.res
